@@ -225,13 +225,38 @@ Proof. apply EofLast_mk. repeat constructor; discriminate. Qed.
 Example ex2_parse : summary ex2 = Some ([(2, 0, 3); (2, 3, 6)], 9).
 Proof. vm_compute. reflexivity. Qed.
 
-(* K0 of DESIGN.md (C05): `proc a ( ) { x := x ; if //d proc b ( ) { }` - the first procedure
-   swallows the doc comment of the second (its span is 11 tokens, index 10 is the comment), but it
-   still stops in front of the keyword, as T5 says *)
+(* K0 of DESIGN.md (C05), repaired: `proc a ( ) { x := x ; if //d proc b ( ) { }`.  Before the fix of
+   Statement::parse_error the failing error alternative of the statement expected after `if` left the
+   comment consumed, `expect` continued behind it, and the first procedure swallowed the doc comment
+   of the second (spans 11 + 6).  Now the alternative fails at its own input: the first procedure's
+   span is 10 tokens and ends IN FRONT of the comment (index 10), the second procedure starts at the
+   comment and keeps it as its doc *)
 Definition ex3 := mk ([KProc; idx; LParen; RParen; LCurly; idx; Assign; idx; Semic; KIf; cmt;
                        KProc; idx; LParen; RParen; LCurly; RCurly] ++ [Eof]).
 
-Example ex3_parse : summary ex3 = Some ([(2, 0, 11); (2, 11, 6)], 17).
+Example ex3_parse : summary ex3 = Some ([(2, 0, 10); (2, 10, 7)], 17).
+Proof. vm_compute. reflexivity. Qed.
+
+(* the doc comments of the two procedures: none for `a`, `//d` for `b` *)
+Example ex3_docs :
+  match parse ex3 with
+  | Done p => map (fun go => match fst go with GProc d => pd_doc d | _ => [] end) (pg_decls p)
+  | _ => []
+  end = [ []; [[100%N]] ].
+Proof. vm_compute. reflexivity. Qed.
+
+(* the error recorded in the first procedure's own AstInfo is `missing closing }`; it lands on token 9,
+   the `if`, i.e. on the last token of the procedure's span [0, 10) - before the fix it was (10, 10),
+   the swallowed comment of the next declaration *)
+Example ex3_closing_brace :
+  match parse ex3 with
+  | Done p => match pg_decls p with
+              | (GProc d, off) :: _ =>
+                  map (fun e => (off + e_s e, off + e_e e)) (i_errs (pd_info d))
+              | _ => []
+              end
+  | _ => []
+  end = [ (9, 9) ].
 Proof. vm_compute. reflexivity. Qed.
 
 (* the hypothesis of T3 is needed: with a second Eof token "Parser cannot fail" is reachable *)
